@@ -535,6 +535,35 @@ func (r *Rig) Exec(idx int, st *Step, prev *Step) *Drift {
 	case "Noop":
 		res = s.c.Cmd("NOOP")
 		r.logf("[%s] NOOP -> %s", s.name, res.Status)
+	case "Check":
+		res = s.c.Cmd("CHECK")
+		r.logf("[%s] CHECK -> %s", s.name, res.Status)
+	case "StatusSel", "StatusOther":
+		b := st.ArgStr(0)
+		res = s.c.Cmd("STATUS " + r.real(b) + " (MESSAGES UIDNEXT)")
+		r.logf("[%s] STATUS %s (MESSAGES UIDNEXT) -> %s %s", s.name, b, res.Status, res.Text)
+		if res.Status == "OK" {
+			msgs, next := -1, -1
+			for _, l := range res.Untagged {
+				if i := strings.Index(l.Text, "MESSAGES "); i >= 0 && strings.Contains(l.Text, "STATUS") {
+					fmt.Sscanf(l.Text[i:], "MESSAGES %d", &msgs)
+				}
+				if i := strings.Index(l.Text, "UIDNEXT "); i >= 0 && strings.Contains(l.Text, "STATUS") {
+					fmt.Sscanf(l.Text[i:], "UIDNEXT %d", &next)
+				}
+			}
+			if want := st.ArgInt(1); msgs != want {
+				if st.Act == "StatusSel" && st.Sel[st.S] == b {
+					r.find("C01", r.taintKey(st, s.name, "F13", "C01/status-count"),
+						fmt.Sprintf("step %d %s: STATUS of the selected mailbox says MESSAGES %d, the specification predicts %d", idx, st.Describe(), msgs, want), idx)
+				}
+				return r.drift(idx, "mirror", "STATUS %s says MESSAGES %d, specification predicts %d", b, msgs, want)
+			}
+			if want := st.ArgInt(2); next != want {
+				r.find("C04", "C04/uidnext", fmt.Sprintf("step %d %s: STATUS announces UIDNEXT %d, the model says %d", idx, st.Describe(), next, want), idx)
+				return r.drift(idx, "uid", "STATUS %s says UIDNEXT %d, specification predicts %d", b, next, want)
+			}
+		}
 	case "Fetch":
 		before := append([]mentry{}, s.mirror...)
 		res = s.c.Cmd("FETCH 1:* (UID FLAGS)")
